@@ -2,10 +2,10 @@
 EXTENDS Serial
 (* ---------------------------------------------------------------- generator *)
 VARIABLES cfg, done
-Suffixes == {".csv", ".txt", "", ".pq", ".parquet", ".dat"}
+Suffixes == {".csv", ".txt", "", ".pq", ".parquet", ".dat", ".PARQUET", ".Pq"}
 Cases == [n : 1..4, lattice : {"d4", "d6", "wide", "int"}, rots : {"rot24", "pi", "rotq", "tiny", "random"},
           feats : {"none", "ints", "mixed", "nulls"}, prec : {-1, 2, 4, 6}, via : {"file", "csv", "parquet", "frame"},
-          suffix : Suffixes]
+          suffix : Suffixes, layout : {"c", "f"}]     \* layout: memory order of the position array handed to Molecules
 Valid(c) == /\ (c.via = "frame" => c.suffix = "" /\ c.prec = -1)
             /\ (c.via = "parquet" => c.prec = -1 /\ c.suffix \in {".pq", ".x"} \cup {".parquet"})
             /\ (c.via = "csv" => c.suffix = ".csv")
